@@ -293,6 +293,45 @@ def check_large_frame(case, ctx):
         compare_models(exp, _models(res.value), "large-frame/ref->impl")
 
 
+def many_type_cases(tier):
+    ns = [257, 300, 1100, 4200] if tier != "thorough" else [257, 300, 1100, 4200, 17000, 66000]
+    return [{"types": n, "direction": d} for n in ns for d in ("impl->ref", "ref->impl")]
+
+
+def check_many_types(case, ctx):
+    """The format announces a record type ONCE per stream and has no limit on the number of types: a stream with N
+    types, each announced once, in which the earliest types come back after all the others, conforms - and is what a
+    merge of many sources looks like. Whatever bookkeeping writer and reader keep per type must not forget one."""
+    import datetime as _d
+
+    from flow.record import RecordDescriptor, RecordStreamReader
+
+    n, direction = case["types"], case["direction"]
+    ctx.nontriv()
+    ctx.cls("types:%d" % n, "direction:" + direction)
+    g = _d.datetime(2020, 1, 1, tzinfo=_d.timezone.utc)
+    descs = [RecordDescriptor("many/t%d" % i, [("varint", "n"), ("string", "s%d" % (i % 7))]) for i in range(n)]
+    recs = [d(i, "v", _generated=g) for i, d in enumerate(descs)]
+    recs += [descs[i](n + i, "again", _generated=g) for i in (0, 1, 2, n // 2, n - 1, 0)]
+    exp = _models(recs)
+    if direction == "impl->ref":
+        data = impl(write_impl, recs)
+        if not data.ok:
+            raise Violation("many-types/write-raised", "%d types: %r" % (n, data), detail=data.type)
+        try:
+            _, got = refcodec.decode_stream(data.value)
+        except refcodec.FormatError as e:
+            raise Violation("many-types/format", "reference decoder rejects the stream of %d types: %s" % (n, e))
+        compare_models(exp, got, "many-types/impl->ref")
+    else:
+        data = refcodec.encode_stream(exp)
+        res = impl(lambda: list(RecordStreamReader(io.BytesIO(data))))
+        if not res.ok:
+            raise Violation("many-types/read-raised", "a conforming stream of %d types, each announced once, is refused: %r"
+                            % (n, res), detail=res.type)
+        compare_models(exp, _models(res.value), "many-types/ref->impl")
+
+
 def colliding_cases(tier):
     """Two generations of one type name whose identifiers (name + 32-bit hash over the concatenated field names and
     types) coincide: 'no'+'wstring' == 'now'+'string'.  The stream must say which definition each record uses."""
@@ -341,4 +380,5 @@ def parts(tier):
         Part("colliding-descriptors-read", check_ref_to_impl, cases=colliding_ref_cases, exhaustive=True),
         Part("golden", check_golden, cases=golden_cases, exhaustive=True),
         Part("large-frames", check_large_frame, cases=large_cases, exhaustive=True),
+        Part("many-types", check_many_types, cases=many_type_cases, exhaustive=True),
     ]
